@@ -41,18 +41,27 @@ Proof.
   split; [intros c [<-|[<-|[<-|[]]]]; exists 1%nat; (split; [reflexivity|now left])|vm_compute; repeat split; reflexivity].
 Qed.
 
-(* the property does NOT hold while a key is being created or deleted: schedules of grants, forced
-   on the implementation by the check (known findings) *)
-(* two creators of a missing key: both pushes are acknowledged with length 1, one element remains *)
-Theorem C05_create_create_refuted :
-  let s := run_grants [0;1;0;1]%nat (init_state [] [Push 1; Push 1]) in
+(* keys that are being created or deleted.  Until tx.go was repaired (a creator now locks its record
+   before publishing it and yields to a record published meanwhile; a writer that obtains the lock
+   of a record unlinked meanwhile looks the key up again) these three schedules of grants lost an
+   acknowledged update; the check still forces them on the implementation.  They are kernel-evaluated
+   instances, not the unbounded claim: the theorem for arbitrary interleavings above is for keys
+   that exist. *)
+(* two creators of a missing key: both pushes are counted *)
+Theorem C05_create_create_both_counted :
+  let s := run_grants [0;1;0;1;0;1;0;1]%nat (init_state [] [Push 1; Push 1]) in
+  reply_of 0 s = Some 1 /\ reply_of 1 s = Some 2 /\ key_val 1 s = Some 2.
+Proof. vm_compute. repeat split; reflexivity. Qed.
+Print Assumptions C05_create_create_both_counted.
+Theorem C05_three_creators_all_counted :
+  let s := run_grants [0;1;2;0;1;2;0;1;2;0;1;2;0;1;2]%nat (init_state [] [Push 1; Push 1; Push 1]) in
+  reply_of 0 s = Some 1 /\ reply_of 1 s = Some 2 /\ reply_of 2 s = Some 3 /\ key_val 1 s = Some 3.
+Proof. vm_compute. repeat split; reflexivity. Qed.
+Print Assumptions C05_three_creators_all_counted.
+(* a writer that waited for a record which was unlinked meanwhile does not update the orphan: it
+   looks the key up again and creates it (DEL then RPUSH is the linearization) *)
+Theorem C05_delete_recreate_linearizable :
+  let s := run_grants [0;0;1;0;0;1;1;1;1]%nat (init_state [(1%nat, 1)] [Del 1; Push 1]) in
   reply_of 0 s = Some 1 /\ reply_of 1 s = Some 1 /\ key_val 1 s = Some 1.
 Proof. vm_compute. repeat split; reflexivity. Qed.
-Print Assumptions C05_create_create_refuted.
-(* a writer that waited for a record which was unlinked meanwhile updates the orphan: the push is
-   acknowledged (length 2) and the key does not exist *)
-Theorem C05_delete_recreate_refuted :
-  let s := run_grants [0;0;1;0;0;1;1]%nat (init_state [(1%nat, 1)] [Del 1; Push 1]) in
-  reply_of 0 s = Some 1 /\ reply_of 1 s = Some 2 /\ key_val 1 s = None.
-Proof. vm_compute. repeat split; reflexivity. Qed.
-Print Assumptions C05_delete_recreate_refuted.
+Print Assumptions C05_delete_recreate_linearizable.
